@@ -29,211 +29,163 @@ MOD_CLASSES = ("MonadicModifier", "DyadicModifier", "TriadicModifier")
 
 
 class ParseRelation:
-    """child_parent[cls] in {'self', 'inherit_or_self', 'inherit', <ClassName>}
-    for every structure class the parser builds from a bracketed structure;
-    `modifier_parent[list name]` = class passed to the tail parse."""
+    """Which `parent` the parser hands to each branch of each structure, and to
+    the structures that follow a modifier - obtained by interpreting the
+    current parse.py on tiny token lists whose branches are a lone break
+    token and reading `parent_structure` off the resulting BreakStatement.
+    (Semantic extraction: independent of how parse() is written.)"""
+
+    HOLE_FIELDS = {"condition": "cond", "body": "body", "items": "item",
+                   "branches": "b", "truthy": "b", "falsey": "b",
+                   "inbetween": "b"}
 
     def __init__(self, repo: Repo, gen: Gen):
         self.repo = repo
-        mod = repo.mod("parse")
-        self.fn = mod.function("parse")
-        info = gen.it.module("vyxal.parse").get("STRUCTURE_INFORMATION")
+        self.gen = gen
+        pp = gen.it.module("vyxal.parse")
+        self.pp = pp
+        self.parse = pp.get("parse")
+        info = pp.get("STRUCTURE_INFORMATION")
         self.opener_class = {k: v[0].name for k, v in info.items()}
+        self.closer = {k: v[1] for k, v in info.items()}
         unknown = [c for c in self.opener_class.values()
                    if c not in Gen_classes()]
         if unknown:
             raise AnalysisError(
                 f"structure classes {unknown} are new: the shape family "
                 "does not cover them")
-        self.closer = {k: v[1] for k, v in info.items()}
-        self.child_parent: dict[str, str] = {}
-        self.built_in_arm: dict[str, list[str]] = {}
-        self.modifier_parent: dict[str, str] = {}
-        self.break_parent = None
-        self.recurse_parent = None
-        self.arity_sites = []
-        self._extract()
-
-    def _classify(self, node) -> str:
-        if isinstance(node, ast.Name):
-            if node.id == "structure_cls":
-                return "self"
-            if node.id == "parent":
-                return "inherit"
-        if isinstance(node, ast.BoolOp) and isinstance(node.op, ast.Or) \
-                and len(node.values) == 2 \
-                and all(isinstance(v, ast.Name) for v in node.values) \
-                and node.values[0].id == "parent" \
-                and node.values[1].id == "structure_cls":
-            return "inherit_or_self"
-        d = dotted(node)
-        if d and d.startswith("structure."):
-            return d.split(".", 1)[1]
-        raise AnalysisError(
-            "parent argument of a recursive parse() call is outside the "
-            f"recognised forms: {ast.unparse(node)} (line {node.lineno})")
-
-    def _parse_calls(self, stmts):
-        out = []
-        for st in stmts:
-            for n in ast.walk(st):
-                if isinstance(n, ast.Call) and isinstance(n.func, ast.Name) \
-                        and n.func.id == "parse":
-                    if len(n.args) >= 2:
-                        out.append(self._classify(n.args[1]))
-                    else:
-                        kw = {k.arg: k.value for k in n.keywords}
-                        if "parent" in kw:
-                            out.append(self._classify(kw["parent"]))
-                        else:
-                            out.append("none")
-        return out
-
-    def _built(self, stmts):
-        out = []
-        for st in stmts:
-            for n in ast.walk(st):
-                if isinstance(n, ast.Call):
-                    d = dotted(n.func)
-                    if d and d.startswith("structure.") and d != "structure.Structure":
-                        out.append(d.split(".", 1)[1])
-                    elif isinstance(n.func, ast.Name) and \
-                            n.func.id == "structure_cls":
-                        out.append("<structure_cls>")
-        return out
-
-    def _extract(self):
-        # the chain `if structure_cls == structure.X: ... elif ... else`
-        chain = None
-        for n in ast.walk(self.fn):
-            if isinstance(n, ast.If) and self._cls_test(n.test) and not (
-                    isinstance(getattr(n, "_parent", None), ast.If)
-                    and n in n._parent.orelse
-                    and self._cls_test(n._parent.test)):
-                chain = n
-                break
-        if chain is None:
-            raise AnalysisError(
-                "anchor vanished: `if structure_cls == structure.X` chain in "
-                "parse.parse")
-        handled = set()
-        node = chain
-        while True:
-            cls = self._cls_test(node.test)
-            kinds = set(self._parse_calls(node.body))
-            if len(kinds) != 1:
+        self.brk = pp.get("BREAK_CHARACTER")
+        self.rec = pp.get("RECURSE_CHARACTER")
+        self.mod_lists = {n: list(pp.get(n)) for n in (
+            "MONADIC_MODIFIERS", "DYADIC_MODIFIERS", "TRIADIC_MODIFIERS")}
+        self._memo = {}
+        self._mod_memo = {}
+        self.modifier_parent = {}
+        for lname, lst in self.mod_lists.items():
+            ps = {self._modifier_parents(m, None)[0] for m in lst}
+            if len(ps) != 1:
                 raise AnalysisError(
-                    f"parse arm for {cls} passes {sorted(kinds)} as parents; "
-                    "the grammar model needs exactly one form per arm")
-            built = [b for b in self._built(node.body)]
-            self.built_in_arm[cls] = built
-            kind = kinds.pop()
-            for b in set(built) | {cls}:
-                if b in Gen_classes():
-                    self.child_parent.setdefault(b, self._resolve(kind, cls))
-            handled.add(cls)
-            if len(node.orelse) == 1 and isinstance(node.orelse[0], ast.If) \
-                    and self._cls_test(node.orelse[0].test):
-                node = node.orelse[0]
-                continue
-            # final else: all remaining opener classes
-            rest = [c for c in self.opener_class.values() if c not in handled]
-            if node.orelse:
-                kinds = set(self._parse_calls(node.orelse))
-                if len(kinds) != 1:
+                    f"modifiers of {lname} hand different parents to their "
+                    f"operands: {sorted(map(str, ps))}")
+            self.modifier_parent[lname] = ps.pop()
+        # break / recurse statements carry the parent they were parsed under
+        for which, ch in (("BreakStatement", self.brk),
+                          ("RecurseStatement", self.rec)):
+            for par in (None, "ForLoop", "Lambda"):
+                got = self._parse_tokens([self._g(ch)], par)
+                ok = len(got) == 1 and got[0].cls.name == which and \
+                    self._pname(got[0].d.get("parent_structure")) == par
+                if not ok:
                     raise AnalysisError(
-                        f"default parse arm passes {sorted(kinds)} as parents")
-                kind = kinds.pop()
-                for c in rest:
-                    self.child_parent[c] = self._resolve(kind, c)
-            elif rest:
+                        f"{which} no longer records the parent it was parsed "
+                        f"under (parent {par})")
+
+    # -- helpers -----------------------------------------------------------------
+    def _g(self, v):
+        return self.gen.token("GENERAL", v)
+
+    @staticmethod
+    def _pname(p):
+        return None if p is None else getattr(p, "name", str(p))
+
+    def _parse_tokens(self, toks, parent):
+        from .pe import PRaise  # noqa: PLC0415
+        self.gen.it.steps = 0
+        try:
+            return list(self.parse(list(toks), self.gen.cls(parent)))
+        except PRaise as exc:
+            raise AnalysisError(
+                f"parse() raised {exc} on a grammar-derived token list")
+
+    def _breaks_in(self, value):
+        """parents recorded by BreakStatements found (recursively) in value"""
+        out = []
+        if isinstance(value, (list, tuple)):
+            for v in value:
+                out += self._breaks_in(v)
+        elif hasattr(value, "cls") and hasattr(value, "d"):
+            if value.cls.name == "BreakStatement":
+                out.append(self._pname(value.d.get("parent_structure")))
+            else:
+                for k, v in value.d.items():
+                    if k != "branches" or "body" not in value.d:
+                        out += self._breaks_in(v)
+        return out
+
+    def _probe(self, opener, n_branches, parent):
+        toks = [self._g(opener)]
+        cls0 = self.opener_class[opener]
+        first_is_meta = cls0 in ("FunctionCall", "Lambda") and n_branches > 1
+        for i in range(n_branches):
+            if i:
+                toks.append(self._g("|"))
+            if i == 0 and first_is_meta:
+                toks.append(self.gen.token("NUMBER", "1")
+                            if cls0 == "Lambda" else self._g("f"))
+            elif i < n_branches - 1 and cls0 == "ForLoop":
+                toks.append(self._g("v"))
+            else:
+                toks.append(self._g(self.brk))
+        toks.append(self._g(self.closer[opener]))
+        return self._parse_tokens(toks, parent)
+
+    def relation(self, parent):
+        """{(built class, hole role): child parent} under incoming `parent`"""
+        if parent in self._memo:
+            return self._memo[parent]
+        rel = {}
+        for opener, cls0 in self.opener_class.items():
+            for nb in (1, 2, 3):
+                res = self._probe(opener, nb, parent)
+                if not res:
+                    continue
+                st = res[0]
+                built = st.cls.name
+                fields = dict(st.d)
+                if "lam" in fields and hasattr(fields["lam"], "d"):
+                    fields["body"] = fields["lam"].d.get("body")
+                for fname, role in self.HOLE_FIELDS.items():
+                    if fname not in fields:
+                        continue
+                    if fname == "branches" and any(
+                            k in fields for k in ("body", "items", "truthy")):
+                        continue
+                    ps = set(self._breaks_in(fields[fname]))
+                    for p in ps:
+                        key = (built, role)
+                        if key in rel and rel[key] != p:
+                            raise AnalysisError(
+                                f"{built}/{role} receives different parents "
+                                f"({rel[key]} / {p}) under parent {parent}")
+                        rel[key] = p
+        self._memo[parent] = rel
+        return rel
+
+    def _modifier_parents(self, m, parent):
+        """(parent handed to the operands, parent of the structures after)"""
+        key = (m, parent)
+        if key not in self._mod_memo:
+            toks = [self._g(m)] + [self._g(self.brk) for _ in range(5)]
+            res = self._parse_tokens(toks, parent)
+            ps = self._breaks_in(res)
+            if not ps:
+                raise AnalysisError(f"modifier {m!r}: no operand parsed")
+            if len(set(ps)) != 1:
                 raise AnalysisError(
-                    f"opener classes {rest} have no arm in parse.parse")
-            break
-        # modifier arms
-        for n in ast.walk(self.fn):
-            if isinstance(n, ast.If):
-                t = n.test
-                if isinstance(t, ast.Compare) and len(t.ops) == 1 \
-                        and isinstance(t.ops[0], ast.In) \
-                        and isinstance(t.comparators[0], ast.Name) \
-                        and t.comparators[0].id.endswith("_MODIFIERS"):
-                    kinds = set(self._parse_calls(n.body))
-                    if len(kinds) != 1:
-                        raise AnalysisError("modifier arm parent forms")
-                    self.modifier_parent[t.comparators[0].id] = kinds.pop()
-                elif isinstance(t, ast.BoolOp):
-                    for v in t.values:
-                        if isinstance(v, ast.Compare) and len(v.ops) == 1 \
-                                and isinstance(v.ops[0], ast.In) \
-                                and isinstance(v.comparators[0], ast.Name) \
-                                and v.comparators[0].id.endswith("_MODIFIERS"):
-                            kinds = set(self._parse_calls(n.body))
-                            if len(kinds) != 1:
-                                raise AnalysisError("modifier arm parent forms")
-                            self.modifier_parent[v.comparators[0].id] = \
-                                kinds.pop()
-        if len(self.modifier_parent) < 3:
-            raise AnalysisError(
-                "anchor vanished: the three `head.value in *_MODIFIERS` arms")
-        # break / recurse construction
-        for n in ast.walk(self.fn):
-            if isinstance(n, ast.Call):
-                d = dotted(n.func)
-                if d == "structure.BreakStatement" and n.args:
-                    self.break_parent = self._classify(n.args[0])
-                if d == "structure.RecurseStatement" and n.args:
-                    self.recurse_parent = self._classify(n.args[0])
-        if self.break_parent is None or self.recurse_parent is None:
-            raise AnalysisError(
-                "anchor vanished: BreakStatement/RecurseStatement "
-                "construction in parse.parse")
+                    f"modifier {m!r} hands different parents to what follows "
+                    f"it: {sorted(map(str, set(ps)))}")
+            self._mod_memo[key] = (ps[0], ps[-1])
+        return self._mod_memo[key]
 
-    @staticmethod
-    def _resolve(kind, cls):
-        return kind
-
-    @staticmethod
-    def _cls_test(test):
-        if isinstance(test, ast.Compare) and len(test.ops) == 1 \
-                and isinstance(test.ops[0], ast.Eq) \
-                and isinstance(test.left, ast.Name) \
-                and test.left.id == "structure_cls":
-            d = dotted(test.comparators[0])
-            if d and d.startswith("structure."):
-                return d.split(".", 1)[1]
-        return None
-
-    def child(self, cls: str, parent: str | None) -> str | None:
-        """Parent handed to the branches of `cls` when `cls` itself was parsed
-        under `parent`."""
-        kind = self.child_parent.get(cls)
-        if kind is None:
-            raise AnalysisError(f"no parse arm builds structure.{cls}")
-        if kind == "self":
-            # `structure_cls` is the class from STRUCTURE_INFORMATION, which
-            # for FunctionDef is FunctionCall
-            return self.arm_class_of(cls)
-        if kind == "inherit_or_self":
-            return parent or self.arm_class_of(cls)
-        if kind == "inherit":
-            return parent
-        return kind
-
-    def arm_class_of(self, cls):
-        for arm, built in self.built_in_arm.items():
-            if cls in built and cls != arm and arm in self.opener_class.values():
-                return arm
-        return cls
+    def child(self, cls: str, parent, hole_role="body"):
+        rel = self.relation(parent)
+        for role in (hole_role, "body", "b", "item", "cond"):
+            if (cls, role) in rel:
+                return rel[(cls, role)]
+        raise AnalysisError(f"no parse probe builds structure.{cls}")
 
     def stmt_parent(self, which: str, parent):
-        kind = self.break_parent if which == "BreakStatement" \
-            else self.recurse_parent
-        if kind == "inherit":
-            return parent
-        if kind in ("self", "inherit_or_self"):
-            raise AnalysisError(f"{which} is built with parent form {kind}")
-        return kind
+        return parent
 
 
 def Gen_classes():
@@ -626,12 +578,13 @@ class Explorer:
             self.bare_cache[key] = self.evaluate(state, r)
         return self.bare_cache[key]
 
-    def child_parent(self, shape, st):
+    def child_parent(self, shape, st, hole=None):
         if shape.cls in MOD_CLASSES:
             return self.mod_parent_of_cls[shape.cls]
         if shape.label.startswith("LambdaOf"):
             return self.mod_parent_of_cls[MOD_CLASSES[len(shape.holes) - 1]]
-        return self.rel.child(shape.cls, st.parent)
+        role = shape.role(hole) if hole else "body"
+        return self.rel.child(shape.cls, st.parent, role)
 
     def explore(self, max_states=600):
         work = []
@@ -649,7 +602,6 @@ class Explorer:
                                            vb, st.pre + st.post))
                 if base.text is None or vb.compile_error:
                     continue
-                cpar = self.child_parent(shape, st)
                 by_name = {}
                 for hc in vb.holes:
                     by_name.setdefault(hc.name, []).append(hc)
@@ -658,6 +610,7 @@ class Explorer:
                         raise AnalysisError(
                             f"hole {h} of {shape.label} does not appear in "
                             "the generated text")
+                    cpar = self.child_parent(shape, st, h)
                     pre, post = shape.spell.get(h, ("", ""))
                     slot = h in shape.slot_holes
                     plist = []
